@@ -247,6 +247,15 @@ func (c18Engine) Exec(c *Case, job *Job) *Result {
 	// sequential references (skipped in a cold-start child: the reference pass would warm the
 	// package-level state; there the references are computed AFTER the concurrent run)
 	refs := map[string]string{}
+	// only the (project, accessor) pairs the task programs use need a reference
+	needed := map[string]bool{}
+	for _, tp := range cc.Tasks {
+		for _, op := range tp.Ops {
+			if op.Kind == "call" {
+				needed[fmt.Sprintf("%d:%s", op.Proj, op.Op)] = true
+			}
+		}
+	}
 	computeRefs := func() bool {
 		for i, p := range cc.Projects {
 			o := BuildPath(filepath.Join(c18Dir(i), p.Root))
@@ -254,11 +263,16 @@ func (c18Engine) Exec(c *Case, job *Job) *Result {
 			if !o.OK {
 				return false
 			}
+			first := true
 			for _, op := range accessors {
-				fo := o
-				if op != accessors[0] {
-					fo = BuildPath(filepath.Join(c18Dir(i), p.Root))
+				if !needed[fmt.Sprintf("%d:%s", i, op)] {
+					continue
 				}
+				fo := o
+				if !first {
+					fo = BuildPath(filepath.Join(c18Dir(i), p.Root)) // every reference is a FIRST call on a fresh instance
+				}
+				first = false
 				refs[fmt.Sprintf("%d:%s", i, op)] = op + ": " + call(fo.japi, op).Text()
 			}
 		}
